@@ -458,6 +458,35 @@ def boundary_cases():
     return out
 
 
+def send_before_bind_cases():
+    """Deterministic: a datagram is sent BEFORE its receiver is bound.  Same-host paths
+    (127.0.0.1 / ::1, the host's own address) deliver one tick later and the network path
+    (reference, 2 ms) at maturity; the port is matched against the host's sockets when the
+    datagram ARRIVES, so a receiver bound in the same tick (after the send) or in the next
+    tick gets it, one bound after the arrival does not."""
+    out = []
+    for v6 in (False, True):
+        for cname, dst, rhost, lat in (("lo", {"lo": 1}, 0, 0), ("own", {"h": 0}, 0, 0), ("net", {"h": 1}, 1, 2)):
+            for when in ("same", "next", "late"):
+                for rkind in ("any", "lo"):
+                    if rkind == "lo" and cname != "lo":
+                        continue
+                    bind = ["bind", 5, rkind, 9000]
+                    steps = [{"hosts": {"0": [["bind", 1, "any", 9001]]}}]
+                    s1 = {"0": [["send", 1, dst, 9000, [3, 1, 4], "send_to"], ["send", 1, dst, 9000, [], "try_send_to"]]}
+                    if when == "same":
+                        s1.setdefault(str(rhost), []).append(bind)
+                    steps.append({"hosts": s1})
+                    steps.append({"hosts": {str(rhost): [bind]} if when == "next" else {}})
+                    steps += [{"hosts": {}}, {"hosts": {}}]
+                    if when == "late":
+                        steps.append({"hosts": {str(rhost): [bind]}})
+                    steps += [{"hosts": {}}, {"hosts": {str(rhost): [["recv", 5, 64, "recv"], ["recv", 5, 64, "try"], ["recv", 5, 64, "try"]]}}]
+                    out.append({"cfg": {"nhosts": 2, "v6": v6, "cap": 8, "seed": 1, "min_ms": lat, "max_ms": lat,
+                                        "random_order": False}, "steps": steps, "flavour": "udp-send-before-bind"})
+    return out
+
+
 def option_matrix():
     """Deterministic socket-option x destination-class matrix: SO_BROADCAST on/off on the
     sender, IP(V6)_MULTICAST_LOOP on/off on the local receiver and on the remote receiver
